@@ -209,6 +209,18 @@ func runGrpcCase(t *testing.T, c gCase) (rows, wrows []string, problems []string
 					opts = append(opts, state.WithLabelQuery(resource.LabelEqual("k", "v")), state.WithLabelQuery(resource.LabelExists("k", resource.NotMatches)))
 				case "id":
 					opts = append(opts, state.WithIDQuery(resource.IDRegexpMatch(regexpFor(o.ID))))
+				case "raw-eq2", "raw-noteq2", "raw-lt2", "raw-in0", "raw-exists1", "raw-eq2+in":
+					// terms no constructor builds (several values on a single-value operator, none on a set operator):
+					// only a verbatim query carries them; remote and wrapped state must still agree
+					terms := map[string][]resource.LabelTerm{
+						"raw-eq2":     {{Key: "k", Op: resource.LabelOpEqual, Value: []string{o.Label, "w"}}},
+						"raw-noteq2":  {{Key: "k", Op: resource.LabelOpEqual, Value: []string{"v", o.Label}, Invert: true}},
+						"raw-lt2":     {{Key: "k", Op: resource.LabelOpLT, Value: []string{"w", "a"}}},
+						"raw-in0":     {{Key: "k", Op: resource.LabelOpIn}},
+						"raw-exists1": {{Key: "k", Op: resource.LabelOpExists, Value: []string{o.Label}}},
+						"raw-eq2+in":  {{Key: "k", Op: resource.LabelOpEqual, Value: []string{"v", "w"}}, {Key: "k", Op: resource.LabelOpIn, Value: []string{"v", "w"}}},
+					}[o.Query]
+					opts = append(opts, state.WithLabelQuery(resource.RawLabelQuery(resource.LabelQuery{Terms: terms})))
 				}
 
 				l, err := be.st.List(ctx, resource.NewMetadata("n1", "T", "", resource.VersionUndefined), opts...)
@@ -399,7 +411,8 @@ func genGrpcCase(r *rng) gCase {
 			o.Op = "get"
 		case x < 70:
 			o.Op = "list"
-			o.Query = pick(r, []string{"", "eq", "exists", "notexists", "in", "id", "noteq+exists", "notexists+in", "exists+noteq", "notin+exists+eq", "or"})
+			o.Query = pick(r, []string{"", "eq", "exists", "notexists", "in", "id", "noteq+exists", "notexists+in", "exists+noteq", "notin+exists+eq", "or",
+				"raw-eq2", "raw-noteq2", "raw-lt2", "raw-in0", "raw-exists1", "raw-eq2+in"})
 		case x < 80:
 			o.Op = "teardown"
 		case x < 86:
